@@ -117,6 +117,8 @@ type Worker struct {
 	hashCalls  []hashCall
 	mergeDepth int
 	inMerge    int
+	eraser     map[string]map[string]bool
+	eraserSeq  int
 	cur        *frame
 }
 
@@ -451,6 +453,8 @@ func (w *Worker) RunPath(entry *ssa.Function, prefix []Decision) (res *PathResul
 	w.tokenSeq = 0
 	w.replaying = len(prefix) > 0
 	w.locks = map[string]int{}
+	w.eraser = map[string]map[string]bool{}
+	w.eraserSeq = 0
 	w.cur = nil
 	w.hashCalls = w.hashCalls[:0]
 	w.res = &PathResult{Sites: map[string]*AssertSite{}, Covers: map[string]int{}, Funcs: map[string]int{}, KnownHit: map[string]bool{}}
